@@ -186,16 +186,14 @@ bool congruence<Number>::operator<=(const congruence<Number> &o) const {
     return false;
   } else if (m_a == 0 && o.m_a == 0) {
     return (m_b == o.m_b);
-  } else if (m_a == 0) {
-    if ((m_b % o.m_a) == (o.m_b % o.m_a)) {
-      return true;
-    }
   } else if (o.m_a == 0) {
-    if (m_b % m_a == (o.m_b % m_a)) {
-      return false;
-    }
+    // aZ+b with a != 0 is infinite: it is not included in a constant
+    return false;
+  } else {
+    // aZ+b <= a'Z+b' iff a' divides a and b - b' (for a constant, a = 0).
+    // x % a' == 0 tests divisibility whatever the sign of x.
+    return (m_a % o.m_a == 0) && ((m_b - o.m_b) % o.m_a == 0);
   }
-  return (m_a % o.m_a == 0) && (m_b % o.m_a == o.m_b % o.m_a);
 }
 
 template <typename Number>
